@@ -9,13 +9,14 @@ import (
 	"github.com/ucan-wg/go-ucan/token/invocation"
 
 	"verifharness/engine"
+	"verifharness/fixtures"
 	"verifharness/refmodel"
 )
 
 // Command lattice: equal, parent, child, sibling, textual-prefix-only, top.
 // /σ and /ς are distinct valid commands whose only letters are case-fold partners of each other.
 // /a/.., /a/./b and /a//b are valid commands whose segments "..", "." and "" are ordinary opaque segments.
-var c02Lattice = []string{"/", "/a", "/a/b", "/a/b/c", "/a/c", "/ab", "/ab/c", "/b", "/σ", "/ς", "/a/..", "/a/./b", "/a//b", "/ucan", "/ucan/revoke"}
+var c02Lattice = []string{"/", "/a", "/a/b", "/a/b/c", "/a/c", "/ab", "/ab/c", "/b", "/σ", "/ς", "/a/..", "/a/./b", "/a//b", "/ucan", "/ucan/revoke", "/σ/a"}
 
 // sliceLoader resolves proof CIDs positionally by linear search.
 type sliceLoader struct {
@@ -50,7 +51,7 @@ func c02Sub(name, dir string, qn, tn int) *engine.Sub {
 	return &engine.Sub{
 		Name:   name,
 		Repeat: true,
-		Rule:   "every assignment of lattice commands {/, /a, /a/b, /a/b/c, /a/c, /ab, /ab/c, /b, /σ, /ς (two distinct lower-case commands that only differ by case-fold partners), /a/.., /a/./b, /a//b (dot and empty segments are ordinary segments, not path navigation), /ucan, /ucan/revoke (the namespace the UCAN specifications use for their own commands obeys the same rule)} to the invocation and to each link of a principal-aligned chain (chains of 2 - 3 links also with one non-root link that names no subject); non-trivial = at most one link fails the reference cover relation",
+		Rule:   "every assignment of lattice commands {/, /a, /a/b, /a/b/c, /a/c, /ab, /ab/c, /b, /σ, /ς (two distinct lower-case commands that only differ by case-fold partners), /a/.., /a/./b, /a//b (dot and empty segments are ordinary segments, not path navigation), /ucan, /ucan/revoke (the namespace the UCAN specifications use for their own commands obeys the same rule), /σ/a (a child of a command that is not ASCII)} to the invocation and to each link of a principal-aligned chain (chains of 2 - 3 links also with one non-root link that names no subject); non-trivial = at most one link fails the reference cover relation",
 		Bound: func(t string) string {
 			return fmt.Sprintf("chains of 1..%d links, %d commands per position", tierN(t, qn, tn), len(c02Lattice))
 		},
@@ -260,10 +261,205 @@ func C02() *engine.Check {
 	return &engine.Check{
 		Property: "C02",
 		Level:    "model_checking",
-		Subs:     []*engine.Sub{c02Sub("command-attenuation", "sound", 4, 6), c02SeqSub("sound"), longChainSub("C02")},
+		Subs:     []*engine.Sub{c02Sub("command-attenuation", "sound", 4, 6), c02SeqSub("sound"), c02LoopSub("sound"), c02WsSub("sound"), longChainSub("C02")},
 		Assumptions: []string{
 			"principals are aligned correctly, policies empty, no time bounds: only the command rule can fire",
 			"reference cover relation = segment-prefix order (refmodel.CmdCovers), independent of Command.Covers",
+		},
+	}
+}
+
+// ---- chains in which the same delegation occurs twice (a principal loop) ----
+
+type c02LoopCase struct {
+	Cmds  []int `json:"cmds"`  // lattice indexes: invocation, A, B, root
+	Loops int   `json:"loops"` // how often the pair (A, B) is repeated before the final A and the root
+}
+
+func (c *c02LoopCase) Weight() int { return c.Loops }
+
+// c02LoopSub: prf = [A, B, A, root] (or [A, B, A, B, A, root]) with A = p1 -> p2 and B = p2 -> p1: every link is
+// aligned, A's CID occurs several times. The command rule holds between every two consecutive entries.
+func c02LoopSub(dir string) *engine.Sub {
+	name := "chains-with-a-repeated-delegation"
+	if dir == "complete" {
+		name += "-completeness"
+	}
+	return &engine.Sub{
+		Name:   name,
+		Repeat: true,
+		Rule:   "proof lists [A, B, A, root] and [A, B, A, B, A, root] in which A (p1 -> p2) and B (p2 -> p1) delegate back and forth, so that the SAME delegation (same CID) occurs two or three times; every assignment of lattice commands to the invocation, A, B and the root: allowed only if every entry covers the one before it (A <= B <= A forces equal commands); non-trivial = at most one link fails",
+		Bound:  func(string) string { return fmt.Sprintf("%d^4 command assignments x 2 loop counts x 2 APIs", len(c02Lattice)) },
+		Setup:  func(string) error { chainInit(); return nil },
+		Gen: func(tier string, emit func(any) bool) {
+			L := len(c02Lattice)
+			for i := 0; i < L; i++ {
+				for a := 0; a < L; a++ {
+					for b := 0; b < L; b++ {
+						for loops := 1; loops <= 2; loops++ {
+							if !emit(&c02LoopCase{Cmds: []int{i, a, b, -1}, Loops: loops}) {
+								return
+							}
+						}
+					}
+				}
+			}
+		},
+		NewCase: func() any { return &c02LoopCase{} },
+		Run: func(ctx *engine.Ctx, c any) {
+			cs := c.(*c02LoopCase)
+			roots := []int{cs.Cmds[3]}
+			if cs.Cmds[3] < 0 {
+				roots = roots[:0]
+				for r := range c02Lattice {
+					roots = append(roots, r)
+				}
+			}
+			for _, r := range roots {
+				A := mustDlg(1, 2, 0, c02Lattice[cs.Cmds[1]], nil)
+				B := mustDlg(2, 1, 0, c02Lattice[cs.Cmds[2]], nil)
+				root := mustDlg(0, 1, 0, c02Lattice[r], nil)
+				ld := &sliceLoader{cids: []cid.Cid{cidPool[0], cidPool[1], cidPool[2]}, toks: []*delegation.Token{A, B, root}}
+				prf := []cid.Cid{cidPool[0]}
+				seq := []int{cs.Cmds[1]}
+				for k := 0; k < cs.Loops; k++ {
+					prf = append(prf, cidPool[1], cidPool[0])
+					seq = append(seq, cs.Cmds[2], cs.Cmds[1])
+				}
+				prf = append(prf, cidPool[2])
+				seq = append(seq, r)
+				inv, err := invocation.New(prin(2), prin(0), commandOf(c02Lattice[cs.Cmds[0]]), prf, invocation.WithNonce(fixedNonce), invocation.WithoutInvokedAt())
+				if err != nil {
+					panic(err)
+				}
+				bad := 0
+				prev := cs.Cmds[0]
+				for _, cur := range seq {
+					if !refmodel.CmdCovers(c02Lattice[cur], c02Lattice[prev]) {
+						bad++
+					}
+					prev = cur
+				}
+				ctx.States(1)
+				ctx.Trans(int64(len(seq)))
+				if bad <= 1 {
+					ctx.Nontrivial(1)
+				}
+				e1, e2 := bothVerdicts(inv, ld)
+				ctx.Eval(2)
+				ctx.Outcome(errLabel(e1))
+				rc := &c02LoopCase{Cmds: []int{cs.Cmds[0], cs.Cmds[1], cs.Cmds[2], r}, Loops: cs.Loops}
+				for _, e := range []error{e1, e2} {
+					if dir == "sound" && e == nil && bad > 0 {
+						ctx.Failf(rc, "command-widened/repeated-delegation", "allowed inv %s <- A %s <- B %s <- A ... <- root %s (%d loops) although %d links do not cover the entry before them", c02Lattice[cs.Cmds[0]], c02Lattice[cs.Cmds[1]], c02Lattice[cs.Cmds[2]], c02Lattice[r], cs.Loops, bad)
+					}
+					if dir == "complete" && e != nil && bad == 0 {
+						ctx.Failf(rc, "denied-attenuating/repeated-delegation", "denied inv %s <- A %s <- B %s <- A ... <- root %s (%d loops) although every link covers the entry before it: %v", c02Lattice[cs.Cmds[0]], c02Lattice[cs.Cmds[1]], c02Lattice[cs.Cmds[2]], c02Lattice[r], cs.Loops, e)
+					}
+				}
+			}
+		},
+	}
+}
+
+// ---- decoded chains over commands that differ in white space only ----
+
+var c02WsLattice = []string{"/", "/a", "/a\n", "/a\r", "/a\r\n", "/a ", "/a\t", "/a/b", "/a\n/b", "/a /b", "/a\u00a0", "/a\ufeff", "/\ufeffa"}
+
+type c02WsCase struct {
+	Cmds []int `json:"cmds"` // [invocation, d0 (leaf), ..., root] indexes into c02WsLattice
+}
+
+func (c *c02WsCase) Weight() int { return len(c.Cmds) }
+
+func c02WsSub(dir string) *engine.Sub {
+	name := "decoded-chains-over-white-space-variants"
+	if dir == "complete" {
+		name += "-completeness"
+	}
+	return &engine.Sub{
+		Name:   name,
+		Repeat: true,
+		Rule:   "chains of 1 - 2 links whose commands are /a and its white-space variants (/a + LF, CR, CRLF, blank, TAB, NBSP, BOM; /a + LF + /b; a BOM before a; all valid, all different commands), every token sealed and decoded again before the check (a decoder must hand back the command that was signed): reference = segment-prefix order on the exact texts; non-trivial = at most one link fails",
+		Bound:  func(string) string { return fmt.Sprintf("%d commands per position, chains of 1..2 links, sealed + decoded", len(c02WsLattice)) },
+		Setup:  func(string) error { chainInit(); return nil },
+		Gen: func(tier string, emit func(any) bool) {
+			L := len(c02WsLattice)
+			for a := 0; a < L; a++ {
+				for b := 0; b < L; b++ {
+					if !emit(&c02WsCase{Cmds: []int{a, b}}) {
+						return
+					}
+					for c := 0; c < L; c++ {
+						if !emit(&c02WsCase{Cmds: []int{a, b, c}}) {
+							return
+						}
+					}
+				}
+			}
+		},
+		NewCase: func() any { return &c02WsCase{} },
+		Run: func(ctx *engine.Ctx, c any) {
+			cs := c.(*c02WsCase)
+			n := len(cs.Cmds) - 1
+			keys := fixtures.ByAlg("ed25519")
+			ld := &sliceLoader{}
+			prf := make([]cid.Cid, n)
+			for i := 0; i < n; i++ {
+				d := mustDlg(alignedHolder(n, i+1), alignedHolder(n, i), 0, c02WsLattice[cs.Cmds[i+1]], nil)
+				data, _, err := d.ToSealed(keys[alignedHolder(n, i+1)].Priv)
+				if err != nil {
+					panic(err)
+				}
+				dec, _, err := delegation.FromSealed(data)
+				if err != nil {
+					ctx.Outcome("decode-refused")
+					if dir == "complete" {
+						ctx.Failf(cs, "valid-command-refused-by-decoder", "a delegation with the valid command %q does not unseal: %v", c02WsLattice[cs.Cmds[i+1]], err)
+					}
+					return
+				}
+				ld.cids, ld.toks = append(ld.cids, cidPool[i]), append(ld.toks, dec)
+				prf[i] = cidPool[i]
+			}
+			inv, err := invocation.New(prin(alignedHolder(n, 0)), prin(0), commandOf(c02WsLattice[cs.Cmds[0]]), prf, invocation.WithNonce(fixedNonce), invocation.WithoutInvokedAt())
+			if err != nil {
+				panic(err)
+			}
+			idata, _, err := inv.ToSealed(keys[alignedHolder(n, 0)].Priv)
+			if err != nil {
+				panic(err)
+			}
+			if inv, _, err = invocation.FromSealed(idata); err != nil {
+				ctx.Outcome("decode-refused")
+				return
+			}
+			bad := 0
+			for i := 0; i < n; i++ {
+				if !refmodel.CmdCovers(c02WsLattice[cs.Cmds[i+1]], c02WsLattice[cs.Cmds[i]]) {
+					bad++
+				}
+			}
+			ctx.States(1)
+			ctx.Trans(int64(n))
+			if bad <= 1 {
+				ctx.Nontrivial(1)
+			}
+			e1, e2 := bothVerdicts(inv, ld)
+			ctx.Eval(2)
+			ctx.Outcome(errLabel(e1))
+			var names []string
+			for _, k := range cs.Cmds {
+				names = append(names, fmt.Sprintf("%q", c02WsLattice[k]))
+			}
+			for _, e := range []error{e1, e2} {
+				if dir == "sound" && e == nil && bad > 0 {
+					ctx.Failf(cs, "command-widened/white-space-variant", "allowed the decoded chain %v (invocation first) although %d links do not cover the command before them", names, bad)
+				}
+				if dir == "complete" && e != nil && bad == 0 {
+					ctx.Failf(cs, "denied-attenuating/white-space-variant", "denied the decoded chain %v (invocation first) although every link covers the command before it: %v", names, e)
+				}
+			}
 		},
 	}
 }
